@@ -164,7 +164,8 @@ let run_case (line : string) : string =
             let only_a a b = Stdlib.List.fold_left (fun acc x -> remove x acc) a b in
             let d = only_a stripped spec @ only_a spec stripped in
             let kp_names = Stdlib.List.map pname !kp_peers in
-            if Stdlib.List.for_all (fun t -> Stdlib.List.mem (peer_of_tok t) kp_names) d
+            let stopped = (st = SStop && f <> FBad) in
+            if Stdlib.List.for_all (fun t -> Stdlib.List.mem (peer_of_tok t) kp_names || (stopped && peer_of_tok t = "")) d
             then (note "KP"; if mt <> stripped then note "KD")
             else note "?"
           end
